@@ -225,6 +225,20 @@ def run(ctx):
                             ok = True
                         else:
                             why = f"replace() installs {sym_str(newv)}"
+                    elif sym_is_call(r, "Cell<T>::get"):
+                        # replace spelled out on the thread-local cell: `let old = cell.get(); cell.set(Some(ptr)); old` — the
+                        # read dominates the one write, which installs Some(ptr of the parameter)
+                        cb_ = cf.body
+                        gets_ = [c for c in cb_.calls() if c.is_("Cell<T>::get")]
+                        sets_ = [c for c in cb_.calls() if c.is_("Cell<T>::set", "Cell<T>::replace")]
+                        if len(gets_) == 1 and len(sets_) == 1 and cb_.dominates(gets_[0].bb, sets_[0].bb) and gets_[0].bb != sets_[0].bb and not [r_ for r_ in cb_.return_blocks() if r_ in cb_.reachable(0, cut={sets_[0].bb})]:
+                            newv = strip_sym(Sym(cf).operand(sets_[0].args[1]))
+                            if newv[0] == "agg" and newv[2] == SLOT["live"] and any(x[0] == "arg" and x[1] == 0 for x in sym_walk(newv) if isinstance(x, tuple) and x):
+                                ok = True
+                            else:
+                                why = f"set() installs {sym_str(newv)}"
+                        else:
+                            why = "the slot is not read once and then written once on every path"
                     else:
                         why = f"closure returns {sym_str(r)} — expected the value returned by Cell::replace"
         chk.ob("C01.b", f"{newf.path} [save]", ok, "prev_recorder = LOCAL_RECORDER.with(|l| l.replace(Some(ptr of the recorder parameter)))" if ok else f"guard does not save the previous pointer: {why}", newf.loc())
